@@ -349,22 +349,28 @@ def timeOf (tbl : List (Snap × Rat)) (s : Snap) : Rat :=
   | some p => p.2
   | none => 0
 
-/-- `_expand` / `_expand_hold` (an unclosed head makes `zip(*…)` raise TypeError) -/
-def expandNotes (tbl : List (Snap × Rat)) (st : PState) : Except Err (List Note) :=
-  let longs (k : Kind) (l : List PLong) : Except Err (List Note) :=
-    mapER (fun p : PLong => match p.tail with
-      | none => .error .other
-      | some t => .ok ⟨k, p.col, timeOf tbl p.head, timeOf tbl t - timeOf tbl p.head⟩) l.reverse
-  match longs .hold st.holds with
+/-- one hold/roll of `_expand_hold` (an unclosed head makes `zip(*…)` raise TypeError) -/
+def longNote (k : Kind) (tf : Snap → Rat) (p : PLong) : Except Err Note :=
+  match p.tail with
+  | none => .error .other
+  | some t => .ok ⟨k, p.col, tf p.head, tf t - tf p.head⟩
+
+/-- `_expand` / `_expand_hold` with the millisecond position of a stored position given by `tf` -/
+def expandWith (tf : Snap → Rat) (st : PState) : Except Err (List Note) :=
+  match mapER (longNote .hold tf) st.holds.reverse with
   | .error e => .error e
   | .ok hs =>
-    match longs .roll st.rolls with
+    match mapER (longNote .roll tf) st.rolls.reverse with
     | .error e => .error e
-    | .ok rs => .ok (st.taps.reverse.map (fun p => ⟨p.kind, p.col, timeOf tbl p.pos, 0⟩) ++ hs ++ rs)
+    | .ok rs => .ok (st.taps.reverse.map (fun p => ⟨p.kind, p.col, tf p.pos, 0⟩) ++ hs ++ rs)
 
-/-- `SMMap._read_notes` (without the `#STOPS` shifting: stops are empty in the model) -/
-def readNotes (data : Str) (t0 : Option Rat) (bcs : Option (List BcSnap)) (stopsSeen : Bool) :
-    Except Err (List (Rat × Rat) × List Note) := do
+/-- …through the dictionary `snap_mapping` -/
+def expandNotes (tbl : List (Snap × Rat)) (st : PState) : Except Err (List Note) := expandWith (timeOf tbl) st
+
+/-- `SMMap._read_notes` (without the `#STOPS` shifting: stops are empty in the model).  `σf` chooses the
+permutation `np.argsort` returns for the list of distinct positions (`TimingMap.offsets` sorts its queries). -/
+def readNotesWith (σf : List Snap → List Nat) (data : Str) (t0 : Option Rat) (bcs : Option (List BcSnap))
+    (stopsSeen : Bool) : Except Err (List (Rat × Rat) × List Note) := do
   let l ← match bcs with
     | none => .error .other            -- `deepcopy(None).sort` : AttributeError
     | some l => .ok l
@@ -373,10 +379,15 @@ def readNotes (data : Str) (t0 : Option Rat) (bcs : Option (List BcSnap)) (stops
   if t0.isNone then .error .other else   -- `None + float` : TypeError (approximation: raised here)
   let st ← parseNotes data
   let qs := dedupSnaps st.seen.reverse
-  let ts ← offsets defaultGrid tm qs
+  let ts ← offsetsWith defaultGrid (σf qs) tm qs
   let notes ← expandNotes (qs.zip ts) st
   if !stopsSeen then .error .other     -- `stops.sorted(True)` on None : AttributeError
   else .ok (tmR.map (fun b => (b.offset, b.bpm)), notes)
+
+/-- the executable instance: a stable ascending argsort -/
+def readNotes (data : Str) (t0 : Option Rat) (bcs : Option (List BcSnap)) (stopsSeen : Bool) :
+    Except Err (List (Rat × Rat) × List Note) :=
+  readNotesWith (stableArgsort Snap.lt) data t0 bcs stopsSeen
 
 /-! ### `SMMap.read`, `_read_note_metadata` -/
 
